@@ -87,7 +87,7 @@ Reply(rid, res, S, lid) ==
     IN [rid |-> rid, res |-> res, lc |-> Locked(S), lrc |-> IF i = 0 THEN 0 ELSE S.H[i].depth, lid |-> lid, granted |-> FALSE]
 
 NewHolder(r, t) == [lid |-> r.lid, depth |-> 1, cnt |-> r.cnt, rc |-> r.rc, pflag |-> r.pflag,
-                    dl |-> IF r.unl THEN MaxNow + 100 ELSE t + r.ex + 1, rid |-> r.id, start |-> t,
+                    dl |-> IF r.unl THEN MaxNow + 100 ELSE t + r.ex + 1, rid |-> r.id, start |-> t,   \* (MaxNow + 100 = Unlimited)
                     aof |-> FALSE, next |-> IF r.unl THEN MaxNow + 100 ELSE t + r.ex + 1,
                     oid |-> r.id]      \* identity of the Lock record (born with the request that created it)
 
@@ -125,10 +125,34 @@ WakePass(S, t, acc) == IF S.waited THEN WakeLoop(S, t, acc) ELSE [S |-> S, out |
 -----------------------------------------------------------------------------
 \* LockDB.Lock
 
-CheckLockedEqual(h, r, t) ==     \* lock.go:682 (second granularity; unlimited handled by the caller's alphabet)
+\* Named deviation (a definition, so that configs which do not mention it keep working; a cfg may override it with
+\* `UnlEqualSkipsCounts <- DevOn`): TRUE describes the refactoring class of seed C01e - the "is this update a no-op?"
+\* short-cut forgets the Count / Rcount / priority-flag comparison on the branch "unlimited update of a hold that is
+\* already unlimited", so such an update is answered like an applied one and dropped.  TLC refutes UpdateSetsTerms.
+DevOn == TRUE
+UnlEqualSkipsCounts == FALSE
+
+TermsEqual(h, r) == r.cnt = h.cnt /\ r.rc = h.rc /\ r.pflag = h.pflag       \* lock.go checkLockedCountEqual
+
+Unlimited == MaxNow + 100                                                 \* 0x7fffffffffffffff in the code
+
+CheckLockedEqual(h, r, t) ==     \* lock.go:682 (second granularity)
+    IF r.unl
+    THEN IF r.keep                                \* Expried = 0xffff: "keep the deadline", only the terms are compared
+         THEN TermsEqual(h, r)
+         ELSE h.dl = Unlimited /\ (UnlEqualSkipsCounts \/ TermsEqual(h, r))
+    ELSE
     LET d == t + r.ex + 1
         diff == IF d > h.dl THEN d - h.dl ELSE h.dl - d
-    IN diff <= 1 /\ r.cnt = h.cnt /\ r.rc = h.rc /\ r.pflag = h.pflag
+    IN diff <= 1 /\ TermsEqual(h, r)
+
+\* UpdateLockedLock (lock.go:723): the hold's command is replaced (Count, Rcount, priority flag, RequestId of the
+\* EXPRIED notice); the period restarts unless the request carries the unlimited flag with Expried = 0xffff
+Retermed(h, r, t) ==
+    [h EXCEPT !.cnt = r.cnt, !.rc = r.rc, !.rid = r.id,
+              !.dl = IF r.keep THEN @ ELSE IF r.unl THEN Unlimited ELSE t + r.ex + 1,
+              !.start = IF r.keep THEN @ ELSE t,
+              !.next = IF r.keep THEN @ ELSE IF r.unl THEN Unlimited ELSE t + r.ex + 1]
 
 DoLockG(WK(_, _, _), S, r, t) ==
     LET locked == Locked(S) IN
@@ -145,17 +169,13 @@ DoLockG(WK(_, _, _), S, r, t) ==
          IF r.update
          THEN IF CheckLockedEqual(h, r, t)
               THEN [S |-> S, out |-> <<Reply(r.id, LOCKED_ERROR, S, lidEff)>>]
-              ELSE LET S1 == [S EXCEPT !.H[me] = [h EXCEPT !.cnt = r.cnt, !.rc = r.rc, !.pflag = r.pflag, !.rid = r.id,
-                                                            !.dl = IF r.unl THEN MaxNow + 100 ELSE t + r.ex + 1, !.start = t,
-                                                            !.next = IF r.unl THEN MaxNow + 100 ELSE t + r.ex + 1]]
+              ELSE LET S1 == [S EXCEPT !.H[me] = [Retermed(h, r, t) EXCEPT !.pflag = r.pflag]]
                    IN IF A13Fixed THEN WK(S1, t, <<Reply(r.id, LOCKED_ERROR, S1, lidEff)>>)
                       ELSE [S |-> S1, out |-> <<Reply(r.id, LOCKED_ERROR, S1, lidEff)>>]
          ELSE IF h.depth < MaxDepth /\ h.depth <= r.rc /\ ~r.pflag
          THEN IF r.ex = 0
               THEN [S |-> S, out |-> <<Reply(r.id, SUCCED, S, lidEff)>>]
-              ELSE LET S1 == [S EXCEPT !.H[me] = [h EXCEPT !.depth = @ + 1, !.cnt = r.cnt, !.rc = r.rc, !.rid = r.id,
-                                                            !.dl = IF r.unl THEN MaxNow + 100 ELSE t + r.ex + 1, !.start = t,
-                                                            !.next = IF r.unl THEN MaxNow + 100 ELSE t + r.ex + 1]]
+              ELSE LET S1 == [S EXCEPT !.H[me] = [Retermed(h, r, t) EXCEPT !.depth = @ + 1]]
                    IN IF A13Fixed THEN WK(S1, t, <<Reply(r.id, SUCCED, S1, lidEff)>>)
                       ELSE [S |-> S1, out |-> <<Reply(r.id, SUCCED, S1, lidEff)>>]
          ELSE [S |-> S, out |-> <<Reply(r.id, LOCKED_ERROR, S, lidEff)>>]
@@ -239,11 +259,15 @@ DueTimeouts(k) == {i \in LiveIdx(ks[k].W) : ks[k].W[i].tot <= now}
 DueExpiries(k) == {i \in 1..Len(ks[k].H) : ks[k].H[i].next <= now}
 NothingDue == \A k \in Keys : DueTimeouts(k) = {} /\ DueExpiries(k) = {}
 
+\* flag words of a request.  The expiry flag "unlimited" (0x4000) is carried by the words "unl" (plain lock),
+\* "updunl" (update), "showupdunl" (show + update) and "updkeep" (update, Expried = 0xffff: keep the deadline).
+UnlFlags == {"unl", "updunl", "showupdunl", "updkeep"}
 ReqRec(id, cmd, k, lid, cnt, rc, to, ex, fl) ==
     [id |-> id, cmd |-> cmd, key |-> k, lid |-> lid, cnt |-> cnt,
      rc |-> rc, prio |-> IF fl = "prio" THEN rc ELSE 0, pflag |-> fl = "prio",
-     to |-> to, ex |-> ex, unl |-> FALSE,
-     show |-> fl \in {"show", "showupdate"}, update |-> fl \in {"update", "showupdate"}, conc |-> fl = "conc",
+     to |-> to, ex |-> IF fl = "updkeep" THEN 65535 ELSE ex, unl |-> fl \in UnlFlags, keep |-> fl = "updkeep",
+     show |-> fl \in {"show", "showupdate", "showupdunl"}, update |-> fl \in {"update", "showupdate", "updunl", "showupdunl", "updkeep"},
+     conc |-> fl = "conc",
      first |-> fl = "first", cancel |-> fl = "cancel", fl |-> fl, st |-> "open", nterm |-> 0, nexp |-> 0, t |-> now]
 
 Apply(k, res, r) ==
@@ -278,7 +302,7 @@ NonLeaderUnlock(S, r) ==
 
 LockReq(k, lid, cnt, rc, to, ex, fl) ==
     /\ Len(reqs) < MaxReq
-    /\ TurnIs({"lock", "lock2", "lock3"}) \/ now = MaxNow
+    /\ TurnIs({"lock", "lock2", "lock3", "relock", "relock2", "relock3", "newcomer", "newcomer2"}) \/ now = MaxNow
     /\ Lag \/ NothingDue
     /\ NoDupWait => \A i \in LiveIdx(ks[k].W) : ks[k].W[i].lid # lid
     /\ LET id == Len(reqs) + 1
@@ -291,7 +315,7 @@ LockReq(k, lid, cnt, rc, to, ex, fl) ==
 
 UnlockReq(k, lid, rc, fl) ==
     /\ Len(reqs) < MaxReq
-    /\ TurnIs({"unlock", "unlock2"}) \/ now = MaxNow
+    /\ TurnIs({"unlock", "unlock2", "hunlock"}) \/ now = MaxNow
     /\ Lag \/ NothingDue
     /\ LET id == Len(reqs) + 1
            r  == ReqRec(id, "U", k, lid, 0, rc, 0, 0, fl)
@@ -420,6 +444,19 @@ RefusedUnlockChangesNothing ==
         (out'[j].rid = Len(reqs') /\ reqs'[Len(reqs')].cmd = "U" /\ out'[j].res \in {UNLOCK_ERROR, UNOWN_ERROR} /\ Len(reqs') > Len(reqs))
             => ks' = ks
 
+\* C01 / C04 ("the Count of the key's oldest outstanding holder" is the Count of the request that last set the hold's
+\* terms): an update request answered LOCKED_ERROR leaves the hold named in its reply with exactly the request's Count,
+\* Rcount and priority flag - whether the code applied it or judged it a no-op.  This is what MonLock.LockUpdate assumes;
+\* the deviation UnlEqualSkipsCounts (seed class C01e) refutes it.
+UpdateSetsTerms ==
+    \A j \in 1..Len(out') :
+        (Len(reqs') > Len(reqs) /\ out'[j].rid = Len(reqs') /\ reqs'[Len(reqs')].cmd = "L" /\ reqs'[Len(reqs')].update
+            /\ out'[j].res = LOCKED_ERROR)
+            => LET r == reqs'[Len(reqs')]
+                   H == ks'[r.key].H
+                   i == IdxOfLid(H, out'[j].lid)
+               IN i # 0 /\ H[i].cnt = r.cnt /\ H[i].rc = r.rc /\ H[i].pflag = r.pflag
+
 \* C05: a request that was answered TIMEOUT is never granted afterwards (covered by OneTerminalReply); a queued
 \* request is not answered TIMEOUT before its deadline
 NoEarlyTimeout ==
@@ -439,7 +476,7 @@ NoEarlyFollowerExpiry ==
            /\ Len(reqs') = Len(reqs))
             => \E j \in 1..Len(ks'[k].H) : ks'[k].H[j].lid = ks[k].H[i].lid
 
-ActionProps == [][GrantOK /\ RefusedUnlockChangesNothing /\ NoEarlyTimeout /\ NonLeaderDecidesNothing /\ NoEarlyFollowerExpiry]_vars
+ActionProps == [][GrantOK /\ RefusedUnlockChangesNothing /\ UpdateSetsTerms /\ NoEarlyTimeout /\ NonLeaderDecidesNothing /\ NoEarlyFollowerExpiry]_vars
 
 -----------------------------------------------------------------------------
 \* behaviour export for engine S (simulation mode): print the driver steps once the request budget is used up
